@@ -20,8 +20,9 @@ OpOf(e) == CASE e.op = "hdr"   -> [op |-> "hdr", h |-> e.h, x |-> e.x]
 (***************************************************************************)
 (* Verdict: the statement of C03 over what the caller observed.  For every *)
 (* Hash: it returns, without error, 32 bytes equal to the independent      *)
-(* evaluation of keccak256(span || BMT root of the zero-padded data) - and *)
-(* that evaluation was made for the length and span this model holds.      *)
+(* evaluation of keccak256(span || BMT root of the zero-padded data).      *)
+(* (That the evaluation was made for the length and span this model holds  *)
+(* is a consistency condition on generator and driver: a note, below.)     *)
 (***************************************************************************)
 Verdict(e, pre) ==
   IF e.op = "crash"      \* the driver's child process died with a panic while running this scenario alone
@@ -30,8 +31,6 @@ Verdict(e, pre) ==
   THEN    Clause("C03:hash_returns", e.returned /\ e.err = "")
        \o Clause("C03:digest_is_keccak_of_span_and_bmt_root",
                  ~e.returned \/ e.err # "" \/ (e.dlen = 32 /\ e.digest = e.digestRef))
-       \o Clause("C03:reference_was_evaluated_for_the_models_length_and_span",
-                 e.refLen = HashTerm(OpOf(e), pre).len /\ e.refHdr = HashTerm(OpOf(e), pre).hdr)
   ELSE <<>>
 
 \* conformance notes (implementation-shaped, or about the scenario itself)
@@ -41,6 +40,8 @@ Drift(e, pre) ==
   \o (IF e.op # "reset" /\ ~CanDoC(OpOf(e), pre, cap, pcap) /\ ~(e.op = "get" /\ pcap = 0) THEN <<"operation_outside_the_api_protocol">> ELSE <<>>)
   \o (IF e.op = "write" /\ (e.err # "" \/ e.ret # WriteRetC(OpOf(e), pre, cap)) THEN <<"write_returns_bytes_absorbed">> ELSE <<>>)
   \o (IF e.op = "get" /\ e.capacity # cap THEN <<"capacity_differs_between_hashers">> ELSE <<>>)
+  \o (IF e.op = "hash" /\ (e.refLen # HashTerm(OpOf(e), pre).len \/ e.refHdr # HashTerm(OpOf(e), pre).hdr)
+      THEN <<"reference_was_not_evaluated_for_the_models_length_and_span">> ELSE <<>>)
      \* forced schedules (BMTSched): the real goroutines offered the gates in the order the model prescribed,
      \* and exactly one of them reached the point where the result is sent
   \o (IF e.op = "hash" /\ Has(e, "followed") /\ ~e.followed THEN <<"forced_schedule_could_not_be_followed">> ELSE <<>>)
